@@ -50,7 +50,7 @@ pub fn gen_case2(prop: &str, seed: u64, run: u64) -> Case2 {
         let all: Vec<&FnSpec> = SPECS.iter().filter(|s| s.family != "nested").collect();
         fns.push(all[(run % all.len() as u64) as usize].id);
     }
-    if prop == "C12" {
+    if prop == "C12" || (prop == "C13" && r.chance(1, 3)) {
         // mostly the invalidation-group family
         let grp: Vec<&&FnSpec> = pl.iter().filter(|s| s.family == "group").collect();
         for _ in 0..nf {
@@ -90,7 +90,7 @@ pub fn gen_case2(prop: &str, seed: u64, run: u64) -> Case2 {
     let w_call = r.range(6, 12) as u32;
     let w_adv = if fns.iter().any(|f| spec(*f).ttl.is_some()) { r.range(1, 4) as u32 } else { r.below(2) as u32 };
     let inv_props = matches!(prop, "C01" | "C12" | "C13" | "C15" | "C16" | "C04" | "C17" | "C18");
-    let w_group = if prop == "C12" { r.range(2, 5) as u32 } else if inv_props { r.below(3) as u32 } else { 0 };
+    let w_group = if prop == "C12" { r.range(2, 5) as u32 } else if prop == "C13" { r.range(1, 3) as u32 } else if inv_props { r.below(3) as u32 } else { 0 };
     let w_with = if prop == "C13" { r.range(2, 5) as u32 } else if inv_props { r.below(3) as u32 } else { 0 };
     let w_reset = if prop == "C15" { r.range(1, 2) as u32 } else if inv_props { r.below(2) as u32 } else { 0 };
     let w_respawn = if prop == "C14" { 1 } else { 0 };
